@@ -2,7 +2,7 @@
    Statements only; proofs live in Proofs/OpsMiscFacts.v.  L0 = Spec/OpsMisc.v,
    L1 = Model/OpsMisc.v over the kernels regenerated into Gen/KOpsMisc.v. *)
 From Coq Require Import ZArith QArith List Bool String Permutation.
-From DM Require Import Base.PyVal Spec.Nf Spec.OpsMisc Gen.KOpsMisc Model.OpsMisc Proofs.OpsMiscFacts.
+From DM Require Import Base.PyVal Spec.Nf Spec.OpsMisc Gen.KOpsMisc Model.OpsMisc Proofs.OpsMiscFacts Proofs.OpsMiscObjFacts.
 Import ListNotations.
 Open Scope Z_scope.
 
@@ -54,6 +54,17 @@ Theorem C15_replace_spec_cells : forall kd m cs out, replace_spec kd m cs = Ok o
 Proof. exact replace_spec_cells. Qed.
 Print Assumptions C15_replace_spec_cells.
 
+(* the NumPy branch (Float / Int columns) pass by pass, for every key, value and column: TypeError for a key that
+   is no number (np.isnan), the exception of the NumPy store for a value that cannot be stored, otherwise the cells
+   designated by the key (NaN cells for a NaN key, cells equal to the key otherwise) hold the stored value *)
+Theorem C15_replace_numeric_pass : forall kd old new cs, numeric_kind kd = true ->
+  pass kd old new cs =
+  if is_number old
+  then bind (np_store kd new) (fun x => Ok (map (fun c => if key_hits kd old c then x else c) cs))
+  else Raise TypeError.
+Proof. exact pass_numeric_exact_b. Qed.
+Print Assumptions C15_replace_numeric_pass.
+
 (* ---- keep_only and dm[name, ...] (the latter calls the former: pinned by the translator) *)
 Theorem C15_keep_only_exact : forall t wrapped args ss,
   plain_args args = Some ss -> keep_model t wrapped args = Ok (keep_spec t ss).
@@ -66,6 +77,20 @@ Theorem C15_keep_spec_exact : forall t ss,
   (wf t -> wf (keep_spec t ss)).
 Proof. exact keep_spec_exact. Qed.
 Print Assumptions C15_keep_spec_exact.
+
+(* columns passed as OBJECTS, resolved inside the model (BaseColumn.name walks the owner's columns, _colname
+   dispatches): the object-level model refines the name-level one for all arguments ... *)
+Theorem C15_keep_obj_refines : forall t wrapped args,
+  keep_model_obj t wrapped args = keep_model t wrapped (map resolve args).
+Proof. exact keep_obj_refines. Qed.
+Print Assumptions C15_keep_obj_refines.
+
+(* ... and with names and / or unaliased column objects of the table itself the result has all rows and exactly
+   the columns named or passed, under whatever names those objects are held at the time of the call *)
+Theorem C15_keep_by_object_exact : forall t ids wrapped args,
+  own_args_b t ids args = true -> keep_model_obj t wrapped args = Ok (keep_by_identity t ids args).
+Proof. exact keep_by_object_exact. Qed.
+Print Assumptions C15_keep_by_object_exact.
 
 (* ---- z: over exact rationals; s stands for col.std, of which only s*s = variance is assumed *)
 Theorem C15_z_mean0 : forall l s, (2 <= List.length l)%nat -> ~ (s == 0)%Q -> (z_mean (z_model l s) == 0)%Q.
@@ -100,3 +125,17 @@ Qed.
 
 Example C15_ex_z : exists s, ~ (s == 0)%Q /\ (s * s == z_var [1#1; 3#1; 5#1])%Q.
 Proof. exists (2#1)%Q. split; [intro H; discriminate H|vm_compute; reflexivity]. Qed.
+
+(* a table whose columns "b", "a" are held by objects 7 and 3; selection by the object 3 and by the name "b" *)
+Example C15_ex_own_args :
+  let t := {| tlen := 1; tcols := [("b"%string, KMixed, [VInt 1]); ("a"%string, KInt, [VInt 2]); ("c"%string, KMixed, [VNone])] |} in
+  own_args_b t [7; 3; 5]%nat [OColumn 3 (own_table t [7; 3; 5]%nat); OStr "b"] = true
+  /\ keep_model_obj t false [OColumn 3 (own_table t [7; 3; 5]%nat); OStr "b"]
+     = Ok {| tlen := 1; tcols := [("b"%string, KMixed, [VInt 1]); ("a"%string, KInt, [VInt 2])] |}.
+Proof. split; vm_compute; reflexivity. Qed.
+
+Example C15_ex_numeric_pass :
+  numeric_kind KFloat = true /\ numeric_kind KInt = true /\
+  pass KFloat (PFloat nan) (PInt 5) [VFlt (FFin false 1 0); VFlt nan] = Ok [VFlt (FFin false 1 0); VFlt (round53 5)]
+  /\ pass KInt (PStr "text" None None) (PInt 1) [VInt 1] = Raise TypeError.
+Proof. repeat split; vm_compute; reflexivity. Qed.
